@@ -157,7 +157,8 @@ def instrument(rec):
                 "is_long": order.position_direction.name == "LONG"}
 
     def cash_inputs(env, order, account):
-        return {"cash": None if account is None else float(account.cash), "order_cost": float(env.get_order_transaction_cost(order))}
+        return {"cash": None if account is None else float(account.cash), "order_cost": float(env.get_order_transaction_cost(order)),
+                "ledger": None if account is None else snap_account(account, with_obs=False)}      # the raw ledger: the monitors recompute what is available
 
     def price_inputs(env, order, account):
         return {"limit_up": float(env.price_board.get_limit_up(order.order_book_id)), "limit_down": float(env.price_board.get_limit_down(order.order_book_id))}
